@@ -17,13 +17,19 @@ class Env:
         self.prefer_cells = prefer_cells
 
     def with_state(self, st):
-        return Env(self.names, st, self.old, self.cellnames, self.pkg, self.prefer_cells)
+        e = Env(self.names, st, self.old, self.cellnames, self.pkg, self.prefer_cells)
+        e.bound = set(getattr(self, 'bound', ()))
+        if hasattr(self, 'fresh_bounds'):
+            e.fresh_bounds = self.fresh_bounds
+        return e
 
     def bind(self, extra):
         n = dict(self.names)
         n.update(extra)
         e = Env(n, self.state, self.old, self.cellnames, self.pkg, self.prefer_cells)
         e.bound = set(getattr(self, 'bound', ())) | set(extra)
+        if hasattr(self, 'fresh_bounds'):
+            e.fresh_bounds = self.fresh_bounds
         return e
 
 
@@ -335,6 +341,15 @@ class ExprMixin:
             x, tn = self.eval(args[0], env)
             kname = args[1][1]
             return T.eq(self.uf_errkind(x), T.I(self.err_kind_id(kname))), None
+        if name == 'fresh':
+            # fresh(x): x was allocated by the call the clause belongs to.  In the function's own postcondition: above
+            # the entry watermark; assumed at a call site: above everything allocated before the call (and below
+            # everything allocated after it, through the watermark W)
+            x = self.eval_int(args[0], env)
+            fb = getattr(env, 'fresh_bounds', None)
+            if fb is None:
+                return T.lt(self.ALLOC0, x), None
+            return T.and_(T.lt(fb[0], x), T.le(x, fb[1])), None
         if name == 'indom':
             m, tn = self.eval(args[0], env)
             key = self.eval_int(args[1], env)
